@@ -31,7 +31,20 @@ def contexts(tier):
     c.append(("guard_div_else", "", [], ["for i in seq(0, 6):", "if i / 4 == 0:", "pass", "<else>"], ["i"], "i"))
     c.append(("guard_div_then", "", [], ["for i in seq(0, 8):", "if i / 4 == 1:"], ["i"], "i"))
     c.append(("guard_div2_then", "", [], ["for i in seq(0, 6):", "if i / 2 == 2:"], ["i"], "i"))
+    # the guard pins a sub-expression to a NEGATIVE constant
+    c.append(("guard_sub_div_then", "", [], ["for i in seq(0, 8):", "if (i - 8) / 4 == -1:"], ["i"], "i"))
+    c.append(("guard_mod_then", "", [], ["for i in seq(0, 7):", "if i % 3 == 2:"], ["i"], "i"))
     return c
+
+
+# left-hand side of the equality guard of a context, as an expression tree of vf.gen.exprs
+GUARD_LHS = {
+    "guard_eq": ("v", "i"),
+    "guard_div_then": ("/", ("v", "i"), 4),
+    "guard_div2_then": ("/", ("v", "i"), 2),
+    "guard_sub_div_then": ("/", ("-", ("v", "i"), ("c", 8)), 4),
+    "guard_mod_then": ("%", ("v", "i"), 3),
+}
 
 
 def build_probe(ctx, esrc, position):
@@ -155,6 +168,13 @@ def run(rep):
             es.append(("%", inner, d))
             if len(vars_) > 1:
                 es.append(("/", ("+", inner, ("v", vars_[1])), d))
+        # guard-fact family: inside `if g == c:` simplify may substitute c for g; expressions that contain the
+        # guard's own left-hand side under another division / modulo (negative intermediate values included)
+        gm = GUARD_LHS.get(ctx[0])
+        if gm is not None:
+            for k, d, op in itertools.product((-4, -3, -2, -1, 1), (2, 3, 4), ("/", "%")):
+                es.append((op, ("+", gm, ("c", k)), d))
+                es.append(("+", (op, ("+", gm, ("c", k)), d), ("c", 2)))
         for e in es:
             for pos in positions:
                 if tier == "quick" and pos != "index" and not GE.has_divmod(e):
